@@ -26,7 +26,8 @@ def run(tier):
                 continue
             for f in r.get("fails") or []:
                 if f["c"] in progs.SPAN:
-                    check.violation({"class": f["c"], "kind": f.get("kind"), "slot": progs.slot_of(f["path"]), "family": family},
+                    check.violation({"class": f["c"], "kind": f.get("kind"), "slot": progs.slot_of(f["path"]), "family": family,
+                                     "classref_chain": ".Class" in f["path"] and any("/classref" in u for u in m["used"])},
                                     {"src": t["src"], "ver": m["ver"], "fail": f, "variants": m["used"]})
         if family == "7":
             s = res[len(res) // 2]
